@@ -77,6 +77,16 @@ impl Server {
         Ok(Self { state, handle })
     }
 
+    #[cfg(feature = "verif-hooks")]
+    /// Creates a server which is reachable by [crate::Channel]s connected to `addr`
+    /// through the in-process transport of [crate::verif] rather than an OS socket.
+    pub fn verif_local(addr: SocketAddr) -> Self {
+        let state = ServerState::default();
+        crate::verif::register_local_server(addr, state.clone());
+        let handle = tokio::spawn(async {});
+        Self { state, handle }
+    }
+
     /// Adds a new service to the live RPC server.
     pub fn add_service<Svc>(&self, service: Svc)
     where
